@@ -281,7 +281,7 @@ pub fn check_c07(c: &Case) -> Verdict {
         }
     }
     let sample = serde_json::json!({"coin": built.coin.cli(), "range": format!("{}..={}", s, e), "blocks": range.iter().take(4).map(|(h, b)| serde_json::json!({"height": h, "txs": b.txs.iter().take(5).map(|t| format!("{}in->{}out", t.inputs.len(), t.outputs.len())).collect::<Vec<_>>()})).collect::<Vec<_>>(), "utxo_rows": vpmodel::render::utxo_set(built.coin, &range).len()});
-    Verdict::Pass(Pass { nontrivial: a.spend_in_range && a.addrless, key: key_of(c), classes, known: vec![], sub_evals: 1, sample: Some(sample) })
+    Verdict::Pass(Pass { nontrivial: a.spend_in_range && a.addrless, key: key_of(c), classes, known: vec![], sub_evals: 1, sample: Some(sample), extra_keys: vec![] })
 }
 
 pub fn check_c08(c: &Case) -> Verdict {
@@ -327,7 +327,7 @@ pub fn check_c08(c: &Case) -> Verdict {
         }
     }
     let sample = serde_json::json!({"coin": built.coin.cli(), "range": format!("{}..={}", s, e), "balances": vpmodel::render::balances(built.coin, &range).iter().take(4).map(|(a, v)| format!("{};{}", a, v)).collect::<Vec<_>>()});
-    Verdict::Pass(Pass { nontrivial: a.multi_out_addr && a.emptied_addr, key: key_of(c), classes, known: vec![], sub_evals: 2, sample: Some(sample) })
+    Verdict::Pass(Pass { nontrivial: a.multi_out_addr && a.emptied_addr, key: key_of(c), classes, known: vec![], sub_evals: 2, sample: Some(sample), extra_keys: vec![] })
 }
 
 fn run_c07(eng: &Engine, a: &Args) {
